@@ -6,7 +6,10 @@ CFG = dict(
     rule=("every scenario runs in a CHILD process holding the real stack: a panic injected once at GetCertificate / "
           "GetConfigForClient / VerifyConnection / ConnState / request handler / header injector on both protocols; the client "
           "closing or resetting after n bytes written (n random over handshake and HTTP traffic of an h1 and an h2 session); a "
-          "read / write / deadline error injected at the k-th I/O operation of the server-side connection; mutated, truncated "
+          "read / write / deadline error injected at the k-th I/O operation of the server-side connection; 160 MiB uploads on both "
+          "protocols after hellos with record versions inside and outside the accepted range under a 64 MiB heap bound (a heap "
+          "that grows with one client's bytes ends the process); a stream reset while one of its DATA frames is being written, "
+          "followed by 12 rounds of control clients on other connections (GOMAXPROCS 1 and 4); mutated, truncated "
           "and extended ClientHello records; hostile HTTP/2 byte streams after a real handshake. After each: the process must be "
           "alive and a control client must be served on both protocols. non-trivial = every scenario"),
     assumptions=[
